@@ -175,6 +175,7 @@ func (e *Engine) mapUpdate(fr *Frame, st *State, x *ssa.MapUpdate) {
 	st.mems[ln] = e.mem(st, ln, objKS, IntSort).Write([]*Term{ref}, Ite(was, n, BVAdd(n, BVConst(1, IntSort))))
 	st.mems[dom] = dm.Write(keys, True)
 	v := e.flat(e.val(fr, x.Value), mt.Elem())
+	e.borrowCheck(fr, st, v, mt.Elem(), x, "a map entry")
 	for i, l := range leavesOf(mt.Elem()) {
 		st.mems[vals[i]] = e.mem(st, vals[i], ks, l.sort).Write(keys, v[i])
 	}
